@@ -29,7 +29,7 @@ claim("C05",
   "sequential consistency; elements carry status=closed so the drain loop body is `continue`; the send loop's write of queued polling events is abstracted as 'in flight'; channel contents are counts; the session-level harness explores ONE preemption per run",
   "DESIGN.md 9/C05", True)
 claim("C15",
-  "Stream-pool ring (push/pop): one inductive step from an arbitrary valid ring state (64-bit cursors symbolic, capacity from a listed set) with a symbolic operation sequence against a FIFO model; SessionManager.GetStream/PutBack over the session model: histories of get/request/deliver/answer/read/put-back/peer-close by two callers: every stream handed out is open, on a live session, carries no old bytes, is clean, is not held by the other caller; active-stream count == held + pooled after every step. Two genuine defects found and fixed (discarded pooled streams were not closed; a response arriving after put-back was handed to the next caller).",
+  "Stream-pool ring (push/pop): one inductive step from an arbitrary valid ring state (64-bit cursors symbolic, capacity from a listed set) with a symbolic operation sequence against a FIFO model; SessionManager.GetStream/PutBack over the session model: histories of get/request/deliver/answer/read/put-back/peer-close by two callers: every stream handed out is open, on a live session, carries no old bytes, is clean, is not held by the other caller; active-stream count == held + pooled after every step. Put-back window (H_C15_window, sync-point hook): PutBack of a stream whose answer is under way is stopped in front of every synchronisation operation while the answer arrives or the server closes the stream; the next GetStream hands out an open, clean stream without old bytes. Two genuine defects found and fixed (discarded pooled streams were not closed; a response arriving after put-back was handed to the next caller).",
   "sequential histories; concurrency of callers is covered only through the lock discipline of the ring (not checked here); session loss not in the histories",
   "DESIGN.md 9/C15")
 
